@@ -288,15 +288,16 @@ def _events_one_manager(o, ev0, comp):
     # a node's value is never delivered to a consumer before its successful on_node_complete
     ok_complete = {}
     for e in ev0:
-        if e['hook'] == 'on_node_complete' and e.get('error') is None:
-            ok_complete.setdefault(comp.to_spec_id(e['node']), []).append(e['seq'])
+        if e['hook'] == 'on_node_complete' and e.get('error') is None and e.get('done') is not None:
+            # the event has been delivered when the (possibly slow) callback has returned
+            ok_complete.setdefault(comp.to_spec_id(e['node']), []).append(e['done'])
     for b in o.bodies:
         for kw, v in b['kwargs'].items():
             if R.is_value(v) and v[1] in bodies and v[1] != b['node']:
                 if not any(s < b['seq'] for s in ok_complete.get(v[1], [])):
                     out.append(('value-delivered-before-complete-event',
                                 f'{b["node"]}.{kw} received the value of {v[1]} before its successful '
-                                f'on_node_complete'))
+                                f'on_node_complete had been delivered (callback returned)'))
     del ended
     return out
 
